@@ -209,6 +209,30 @@ pub fn any_decomp(rng: &mut Rng, street: Street, n: usize, nfrom: u64) -> BTreeM
 }
 
 
+/// a transitions table with at least `n` (prev, next) rows; `prev` codes are raw (the 12-bit index of
+/// `Abstraction::from((street, i))` gives only 4096 of them)
+pub fn many_decomp(rng: &mut Rng, street: Street, n: usize) -> BTreeMap<Abstraction, Histogram> {
+    let next = match street {
+        Street::Pref => Street::Flop,
+        Street::Flop => Street::Turn,
+        _ => Street::Rive,
+    };
+    let mut m: BTreeMap<Abstraction, Histogram> = BTreeMap::new();
+    let mut total = 0;
+    while total < n {
+        let from = Abstraction::from((street_index(street) << 56) | (rng.next() >> 8));
+        let k = 1 + rng.below(30) as usize;
+        let support: Vec<Abstraction> = (0..k).map(|_| Abstraction::from((next, rng.below(100) as usize))).collect();
+        let v: Vec<Abstraction> = (0..2 * k).map(|_| support[rng.below(k as u64) as usize]).collect();
+        let h = Histogram::from(v);
+        if !m.contains_key(&from) {
+            total += h.n();
+            m.insert(from, h);
+        }
+    }
+    m
+}
+
 // ------------------------------------------------------------------ tables and their code forms
 
 /// rows (past, present, future, edge, regret bits, policy bits) in the profile's own iteration order
